@@ -156,5 +156,60 @@ def install(eng):
         t = n[1]
         return isinstance(t, tuple) and t and t[0] == "app" and isinstance(t[1], str) and strip_generics(t[1]) in SOCK_RECV
 
+    # ---------------------------------------------------------------- listener: path validation gate (C03, C06)
+    GUARDED_PREFIX = ("std::fs::", "std::path::Path::exists", "std::path::Path::metadata", "std::path::Path::is_file", "std::path::Path::is_dir",
+                      "std::path::Path::read_dir", "std::path::Path::canonicalize", "std::path::Path::symlink_metadata", "std::path::Path::try_exists")
+    GUARDED_EXACT = ("std::thread::spawn", "std::net::UdpSocket::bind", "std::net::UdpSocket::try_clone", "std::net::UdpSocket::connect",
+                     "std::collections::HashMap::insert", "tftpd::socket::Socket::send")
+    PURE_FS = ("std::fs::Metadata::len",)
+    ERRORCODE = "tftpd::packet::ErrorCode"
+
+    def listener_hook(eng, st, fr, bb, base, args, ev, t):
+        if fr.region != "listener":
+            return
+        if (base.startswith(GUARDED_PREFIX) and base not in PURE_FS) or base in GUARDED_EXACT:
+            vc = gread_opt(st, "v_contains")
+            va = gread_opt(st, "v_any")
+            ok = vc is not None and va is not None and vc[0] == "i" and va[0] == "i" and \
+                st.ctx.entails_eq(vc[1], lin.const(0)) and st.ctx.entails(lin.le(lin.const(1), va[1]))
+            eng.oblige(st, fr, bb, "ghost:validated", "%s only after a successful path validation" % base, ok,
+                       "" if ok else "%s is reachable on a path where the request's path has not passed  !contains(\"..\") && ancestors().any(== root)" % base)
+        # reply sent on the listening socket: remember the error code (for the rejection clauses)
+        if base.endswith("socket::Socket>::send_to") or base in SOCK_SEND:
+            v = args[1][0].get(()) if len(args) > 1 else None
+            vn = variant_of_pointee(eng, st, v)
+            code = 0
+            if vn == "Error" and v is not None and v[0] == "r":
+                a = prog.adts.get(PACKET)
+                vi = [i for i, x in enumerate(a["variants"]) if x["name"] == "Error"][0]
+                names = [f["name"] for f in a["variants"][vi]["fields"]]
+                ci = names.index("code") if "code" in names else 0
+                cd = eng.read(st, v[1], v[2] + (("v", vi), ci, "$discr"))
+                c = const_of(cd)
+                code = 100 + c if c is not None else 99
+            elif vn is not None:
+                code = 50
+            gwrite(eng, st, "reply", ICONST(code))
+
+    def listener_post(eng, st, fr, bb, base, args, ev, t):
+        if fr.region.startswith("thread:"):
+            return
+        if base == "core::str::<impl str>::contains":
+            pat = args[1][0].get(()) if len(args) > 1 else None
+            if isinstance(pat, tuple) and pat[0] == "r" and pat[1] == ("K", ("str", "..")):
+                root, path, ti = eng.resolve(st, fr, t["dest"])
+                gwrite(eng, st, "v_contains", eng.read(st, root, path, ti))
+        elif base == "std::iter::Iterator::any":
+            root, path, ti = eng.resolve(st, fr, t["dest"])
+            gwrite(eng, st, "v_any", eng.read(st, root, path, ti))
+
+    def gread_opt(st, name):
+        d = st.store.get(G)
+        if d is not None and (name,) in d:
+            return d[(name,)]
+        return None
+
     eng.call_hooks.append(call_hook)
+    eng.call_hooks.append(listener_hook)
+    eng.post_call_hooks.append(listener_post)
     eng.edge_hooks.append(edge_hook)
